@@ -89,7 +89,47 @@ func runC09(c *core.Ctx) {
 		c.Check(okInc && nEpochStores == 1 && okVal && okSet, "next epoch number and exactly the callback's validators are persisted", "T2 Dominates + provenance", se.Pos(), "Epoch++ and Validators = newValidators precede SetEpochState(&copy)", "the sealed epoch state is not (old epoch + 1, callback's validators)")
 		rs := se.CallsTo("abft.Orderer.resetEpochStore")
 		okRS := len(rs) == 1 && okSet
-		if okRS {
+		od := c.Fn("abft.Orderer.onFrameDecided")
+		// where the epoch store is switched on the seal path: in sealEpoch itself (switchInSeal), or in
+		// onFrameDecided after the seal call (sw), possibly inside a helper that hands the error on
+		switchInSeal := len(rs) == 1
+		var sw []c08site
+		if len(rs) == 0 && okSet {
+			sw = c08sitesOf(od, "abft.Orderer.resetEpochStore", 2)
+			sealCalls := od.CallsTo("abft.Orderer.sealEpoch")
+			if len(sw) == 1 && len(sealCalls) == 1 {
+				// the epoch handed to the switch is what sealEpoch returned, and every return of sealEpoch
+				// yields the Epoch of the state it persisted, unchanged since the SetEpochState
+				g, arg := c08arg(sw[0], 0)
+				fromSeal := g == od && arg != nil && ast.Unparen(resolveLocal(od, arg)) == ast.Expr(sealCalls[0].Call)
+				rets := se.ReturnPoints()
+				okRet := fromSeal && len(rets) > 0
+				for _, rp := range rets {
+					r := rp.Node().(*ast.ReturnStmt)
+					if !okRet || len(r.Results) != 1 {
+						okRet = false
+						break
+					}
+					root, pth := fieldPath(se, r.Results[0])
+					isNew := len(pth) == 1 && pth[0] == "abft.EpochState.Epoch" && varOf(se, root) == es
+					if !isNew && carrier != nil && varOfRaw(se, r.Results[0]) == carrier {
+						isNew = true
+					}
+					dom, _ := se.MustPassBefore(core.Points(sets), rp)
+					okRet = isNew && dom
+					for _, a := range assignments(se) {
+						aroot, apath := fieldPath(se, a.LHS)
+						if varOf(se, aroot) == es && (len(apath) == 0 || apath[0] == "abft.EpochState.Epoch") && se.CanReach(sets[0].Pt, a.Pt) && se.CanReach(a.Pt, rp) {
+							okRet = false // the copy's epoch is changed after it was persisted
+						}
+					}
+				}
+				after, _ := od.MustPassBefore(core.Points(sealCalls), sw[0].Outer().Pt)
+				c.Check(okRet && after, "epoch database is switched after the new epoch state is persisted", "T2 Dominates (value handed from sealEpoch to the switch)", se.Pos(), "sealEpoch returns the persisted state's epoch and resetEpochStore(<that epoch>) follows the seal call", "the epoch database is switched before/without persisting the new epoch state, or for a different epoch")
+			} else {
+				c.Check(false, "epoch database is switched after the new epoch state is persisted", "T2 Dominates", se.Pos(), "", "the epoch database is switched before/without persisting the new epoch state, or for a different epoch")
+			}
+		} else if okRS {
 			// a local holding the incremented epoch stands for the field when nothing stores to it afterwards
 			_, pth := fieldPath(se, c09snapshot(se, rs[0].Call.Args[0]))
 			okRS = len(pth) == 1 && pth[0] == "abft.EpochState.Epoch"
@@ -100,7 +140,9 @@ func runC09(c *core.Ctx) {
 			d, _ := se.MustPassBefore(core.Points(sets), rs[0].Pt)
 			okRS = okRS && d
 		}
-		c.Check(okRS, "epoch database is switched after the new epoch state is persisted", "T2 Dominates", se.Pos(), "resetEpochStore(new epoch) follows SetEpochState", "the epoch database is switched before/without persisting the new epoch state, or for a different epoch")
+		if !(len(rs) == 0 && okSet) {
+			c.Check(okRS, "epoch database is switched after the new epoch state is persisted", "T2 Dominates", se.Pos(), "resetEpochStore(new epoch) follows SetEpochState", "the epoch database is switched before/without persisting the new epoch state, or for a different epoch")
+		}
 
 		re := c.Fn("abft.Orderer.resetEpochStore")
 		// each of the three steps may sit in re itself or in a helper that always performs it and hands its
@@ -147,17 +189,8 @@ func runC09(c *core.Ctx) {
 		c.Check(okNew, "the database of the requested epoch is installed", "provenance", oe.Pos(), "epochDB = getEpochDB(n)", "a different epoch's database is installed")
 
 		// onFrameDecided: seal branch
-		od := c.Fn("abft.Orderer.onFrameDecided")
-		var newV *types.Var
-		applies := map[ast.Expr]bool{}
-		for _, cs := range c09funcFieldCalls(od, "abft.OrdererCallbacks.ApplyAtropos") {
-			applies[cs.Call] = true
-		}
-		for _, a := range assignments(od) {
-			if a.RHS != nil && applies[ast.Unparen(a.RHS)] {
-				newV = varOf(od, a.LHS)
-			}
-		}
+		// (the callback may be invoked in place or in a helper that hands its result back)
+		newV := c09sealVar(od)
 		c.Need(newV != nil, "newValidators = ApplyAtropos(...)")
 		// "the callback returned validators", whether tested directly or through a boolean local
 		sealed := c09lift(od, varNilFact(od, newV, false))
@@ -177,13 +210,21 @@ func runC09(c *core.Ctx) {
 		// (the Reset may be shared with the other branch and be fed by locals assigned per branch: what
 		// counts is which definitions reach it on a run through sealEpoch)
 		okR := false
-		for _, r := range od.CallsTo("abft/election.Election.Reset") {
-			if len(seals) != 1 || len(r.Call.Args) != 2 || !od.CanReach(seals[0].Pt, r.Pt) {
+		// (the Reset may also sit in a helper — shared with Orderer.Reset — that switches the epoch store
+		// first and resets the election once that succeeded: its parameters are bound to the arguments)
+		for _, rsite := range c09effectSites(od, func(cs *core.CallSite) bool { return cs.Name == "abft/election.Election.Reset" }, 2) {
+			r := rsite.Outer()
+			if len(seals) != 1 || len(rsite.Inner().Call.Args) != 2 || !od.CanReach(seals[0].Pt, r.Pt) {
 				continue
 			}
 			seal := seals[0]
+			vg, varg := c08arg(rsite, 0)
+			fg, farg := c08arg(rsite, 1)
+			if vg != od || fg == nil {
+				continue
+			}
 			one, nV, nF := true, 0, 0
-			for _, d := range c08reaching(od, r.Call.Args[0], r.Pt, newV) {
+			for _, d := range c08reaching(od, varg, r.Pt, newV) {
 				if !c08sameRun(od, d, seal.Pt) {
 					continue
 				}
@@ -192,24 +233,36 @@ func runC09(c *core.Ctx) {
 					one = false
 				}
 			}
-			for _, d := range c08reaching(od, r.Call.Args[1], r.Pt) {
-				if !c08sameRun(od, d, seal.Pt) {
-					continue
+			if fg == od {
+				for _, d := range c08reaching(od, farg, r.Pt) {
+					if !c08sameRun(od, d, seal.Pt) {
+						continue
+					}
+					nF++
+					if d.E == nil {
+						one = false
+						continue
+					}
+					if cst, isC := od.ObjOf(d.E).(*types.Const); !isC || p.ObjName(cst) != "abft.FirstFrame" {
+						one = false
+					}
 				}
+			} else {
+				// the frame is chosen inside the helper: the constant itself
 				nF++
-				if d.E == nil {
-					one = false
-					continue
-				}
-				if cst, isC := od.ObjOf(d.E).(*types.Const); !isC || p.ObjName(cst) != "abft.FirstFrame" {
+				if cst, isC := fg.ObjOf(resolveLocal(fg, farg)).(*types.Const); !isC || p.ObjName(cst) != "abft.FirstFrame" {
 					one = false
 				}
 			}
-			// reached from the seal only when it succeeded, and from the "validators returned" edge only through the seal
-			ev := errVarOfCall(od, seal.Call)
-			succ := ev != nil
-			if succ {
-				succ, _ = od.GuardedBetween(seal.Pt, r.Pt, varNilFact(od, ev, true))
+			// reached only after the epoch store switch of the seal path succeeded, and from the "validators
+			// returned" edge only through the seal
+			succ := false
+			if switchInSeal {
+				if ev := errVarOfCall(od, seal.Call); ev != nil {
+					succ, _ = od.GuardedBetween(seal.Pt, r.Pt, varNilFact(od, ev, true))
+				}
+			} else if len(sw) == 1 {
+				succ = c09siteAfterSuccess(sw[0], rsite)
 			}
 			edges := edgesWithFact(od, sealed)
 			for _, e := range edges {
@@ -254,16 +307,24 @@ func runC09(c *core.Ctx) {
 		rs := c.Fn("abft.Orderer.Reset")
 		epoch, vals := rs.Param(0), rs.Param(1)
 		ag := rs.CallsTo("abft.Store.applyGenesis")
-		re := rs.CallsTo("abft.Orderer.resetEpochStore")
-		er := rs.CallsTo("abft/election.Election.Reset")
-		ok := len(ag) == 1 && len(re) == 1 && len(er) == 1
+		// the store switch and the election reset may sit in Reset itself or in a helper (shared with the
+		// seal path) that hands the switch's error on and resets the election once it succeeded: the
+		// helper's parameters are bound to Reset's arguments
+		re := c08sitesOf(rs, "abft.Orderer.resetEpochStore", 2)
+		er := c09effectSites(rs, func(cs *core.CallSite) bool { return cs.Name == "abft/election.Election.Reset" }, 2)
+		ok := len(ag) == 1 && len(re) == 1 && len(er) == 1 && len(ag[0].Call.Args) == 2 && len(er[0].Inner().Call.Args) == 2
 		if ok {
+			rg, rarg := c08arg(re[0], 0)
+			vg, varg := c08arg(er[0], 0)
+			fg, farg := c08arg(er[0], 1)
 			ok = varOf(rs, ag[0].Call.Args[0]) == epoch && varOf(rs, ag[0].Call.Args[1]) == vals &&
-				varOf(rs, re[0].Call.Args[0]) == epoch && varOf(rs, er[0].Call.Args[0]) == vals
-			cst, isC := rs.ObjOf(er[0].Call.Args[1]).(*types.Const)
-			ok = ok && isC && p.ObjName(cst) == "abft.FirstFrame"
-			d1, _ := rs.MustPassBefore(core.Points(ag), re[0].Pt)
-			ok = ok && d1 && afterSuccess(rs, re[0], er[0].Pt)
+				rg == rs && varOf(rs, rarg) == epoch && vg == rs && varOf(rs, varg) == vals && fg != nil
+			if ok {
+				cst, isC := fg.ObjOf(resolveLocal(fg, farg)).(*types.Const)
+				ok = isC && p.ObjName(cst) == "abft.FirstFrame"
+			}
+			d1, _ := rs.MustPassBefore(core.Points(ag), re[0].Outer().Pt)
+			ok = ok && d1 && c09siteAfterSuccess(re[0], er[0])
 		}
 		c.Check(ok, "Reset performs the seal path's effects", "T16b SiblingAgreement", rs.Pos(), "applyGenesis(epoch, validators); resetEpochStore(epoch); election.Reset(validators, FirstFrame)", "Reset does not persist the state, switch the epoch database and reset the election like the seal path does")
 		// applyGenesis persists (epoch, validators) and FirstFrame-1
